@@ -16,7 +16,10 @@ import DvidModel.Lemmas.ImageBlk2
   (`Gen.ImageBlk`) and the model is conditioned on them; the byte-to-byte transfer map of the real
   `ReadBlock`/`WriteBlock` is compared with `segs` on generated geometries by the harness, which also compares
   every read geometry of the HTTP API with an element-wise oracle.
-  Not proved: the write direction as a theorem of its own (tied by execution), PNG encoding of 2-D slices,
+  * the write direction copies the same row segments the other way (`writeBlock_own`), and a voxel written
+    through one request and read through any other request of the instance comes back unchanged
+    (`write_then_read`).
+  Not proved: PNG encoding of 2-D slices,
   ROI masking (roi membership is C18), storage (C01/C05).
 -/
 namespace Dvid.Props.C17
@@ -144,6 +147,71 @@ theorem readBox_hit (g : Geo) (ok : GeoOK g) (stored : List ((Int × Int × Int)
       rw [this]
       exact readBlock_own g ok e.1 e.2 data x y z c hreq hc hin
     · exact ih hnodup.2 _ hrest
+
+/-! ### the write direction and write-then-read -/
+
+/-- the block-buffer index is injective on the voxels of the block -/
+theorem blockIdx_inj (g : Geo) (bx by_ bz x y z c x' y' z' c' : Int)
+    (h : InBlk g bx by_ bz x y z) (h' : InBlk g bx by_ bz x' y' z') (hc : 0 ≤ c ∧ c < g.bpv) (hc' : 0 ≤ c' ∧ c' < g.bpv)
+    (e : blockIdx g bx by_ bz x y z c = blockIdx g bx by_ bz x' y' z' c') : x = x' ∧ y = y' ∧ z = z' ∧ c = c' := by
+  unfold blockIdx at e
+  have hx := h.hx; have hx' := h'.hx; have hy := h.hy; have hy' := h'.hy
+  unfold InBlock at hx hx' hy hy'
+  rw [Int.add_mul, Int.one_mul] at hx hx' hy hy'
+  have := lin_inj hc hc' (i := x - bx * g.nx) (i' := x' - bx * g.nx) (j := y - by_ * g.ny) (j' := y' - by_ * g.ny)
+    (by omega) (by omega) (by omega) (by omega) e
+  omega
+
+/-- `writeBlock`: the row segments copied from the request buffer into the block -/
+def writeBlock (g : Geo) (b : Int × Int × Int) (data : Int → UInt8) (blk : Int → UInt8) : Int → UInt8 :=
+  readSegs data ((segs .vol g b.1 b.2.1 b.2.2).map Seg.swap) blk
+
+/-- after a write every voxel of request ∩ block holds, in the block, the bytes the request carried for it -/
+theorem writeBlock_own (g : Geo) (ok : GeoOK g) (b : Int × Int × Int) (data blk : Int → UInt8)
+    (x y z c : Int) (hreq : InReq g x y z) (hc : 0 ≤ c ∧ c < g.bpv) (hin : InBlk g b.1 b.2.1 b.2.2 x y z) :
+    writeBlock g b data blk (blockIdx g b.1 b.2.1 b.2.2 x y z c) = data (dataIdx g x y z c) := by
+  unfold writeBlock
+  apply readSegs_hit
+  · intro sg hsg hcov
+    obtain ⟨sg0, hsg0, rfl⟩ := List.mem_map.1 hsg
+    obtain ⟨x', y', z', c', _, hb', hc0, hc1, hq, hsrc⟩ := segs_vol_sound_blk g ok.bpv _ _ _ sg0 hsg0 _ hcov
+    obtain ⟨rfl, rfl, rfl, rfl⟩ := blockIdx_inj g _ _ _ x y z c x' y' z' c' hin hb' hc ⟨hc0, hc1⟩ hq
+    simp only [Seg.swap] at hsrc ⊢
+    rw [hsrc]
+  · obtain ⟨sg0, hsg0, hcov0⟩ := segs_vol_complete g ok.bpv _ _ _ x y z c hreq hin hc
+    refine ⟨sg0.swap, List.mem_map_of_mem hsg0, ?_⟩
+    obtain ⟨x', y', z', c', hr', _, hc0, hc1, hp, hbI⟩ := segs_vol_sound g ok.bpv _ _ _ sg0 hsg0 _ hcov0
+    obtain ⟨rfl, rfl, rfl, rfl⟩ := dataIdx_inj g ok.mx x y z c x' y' z' c' hreq hr' hc ⟨hc0, hc1⟩ hp
+    unfold Seg.covers at hcov0 ⊢
+    simp only [Seg.swap]
+    omega
+
+/-- a write leaves the bytes of the block that belong to no requested voxel alone -/
+theorem writeBlock_other (g : Geo) (ok : GeoOK g) (b : Int × Int × Int) (data blk : Int → UInt8) (q : Int)
+    (hq : ∀ x y z c, InReq g x y z → InBlk g b.1 b.2.1 b.2.2 x y z → 0 ≤ c ∧ c < g.bpv → q ≠ blockIdx g b.1 b.2.1 b.2.2 x y z c) :
+    writeBlock g b data blk q = blk q := by
+  unfold writeBlock
+  apply readSegs_miss
+  intro sg hsg hcov
+  obtain ⟨sg0, hsg0, rfl⟩ := List.mem_map.1 hsg
+  obtain ⟨x, y, z, c, hr, hb, hc0, hc1, hqe, _⟩ := segs_vol_sound_blk g ok.bpv _ _ _ sg0 hsg0 _ hcov
+  exact hq x y z c hr hb ⟨hc0, hc1⟩ hqe
+
+/-- **what was written is what is read**: a voxel written through request `gw` into block `b` and later read
+    through any request `gr` of the same instance (same voxel width and block size) comes back with the bytes
+    it was written with — whatever the alignment of the read box, for negative coordinates as well -/
+theorem write_then_read (gw gr : Geo) (okw : GeoOK gw) (okr : GeoOK gr)
+    (hsame : gr.bpv = gw.bpv ∧ gr.nx = gw.nx ∧ gr.ny = gw.ny ∧ gr.nz = gw.nz)
+    (b : Int × Int × Int) (wdata blk0 rdata : Int → UInt8) (x y z c : Int)
+    (hw : InReq gw x y z) (hr : InReq gr x y z) (hc : 0 ≤ c ∧ c < gw.bpv) (hin : InBlk gw b.1 b.2.1 b.2.2 x y z) :
+    readBlock gr b (writeBlock gw b wdata blk0) rdata (dataIdx gr x y z c) = wdata (dataIdx gw x y z c) := by
+  obtain ⟨h1, h2, h3, h4⟩ := hsame
+  have hin' : InBlk gr b.1 b.2.1 b.2.2 x y z := ⟨by rw [h2]; exact hin.hx, by rw [h3]; exact hin.hy, by rw [h4]; exact hin.hz⟩
+  rw [readBlock_own gr okr b _ rdata x y z c hr (by rw [h1]; exact hc) hin']
+  have e : blockIdx gr b.1 b.2.1 b.2.2 x y z c = blockIdx gw b.1 b.2.1 b.2.2 x y z c := by
+    unfold blockIdx; rw [h1, h2, h3, h4]
+  rw [e]
+  exact writeBlock_own gw okw b wdata blk0 x y z c hw hc hin
 
 /-- the 2-D slice shapes are the 3-D transfer of a one-voxel-thick box (when the block meets the slice) -/
 theorem xy_is_thin_box (g : Geo) (bx by_ bz : Int) (hm : g.mz = 1) (hz : InBlock g.nz bz g.sz) :
